@@ -62,7 +62,14 @@ def main():
     shutil.copy(patch, dst)
     shutil.copy(os.path.join(src, "demo_test.go"), dst)
     meta["ran"] = meta.get("ran", "")
-    meta["verified_by_me"] = {k: v for k, v in res.items() if k not in ("checks",)}
+    prev = {}
+    if os.path.exists(os.path.join(dst, "meta.json")):
+        prev = json.load(open(os.path.join(dst, "meta.json"))).get("verified_by_me", {})
+    vb = {k: v for k, v in res.items() if k not in ("checks",)}
+    for k in ("applies", "suite_passes_with_patch", "demo_fails_with_patch", "demo_passes_without_patch"):
+        if k not in vb and k in prev:
+            vb[k] = prev[k]
+    meta["verified_by_me"] = vb
     meta["check_results"] = res["checks"]
     json.dump(meta, open(os.path.join(dst, "meta.json"), "w"), indent=1)
     print(json.dumps(res, indent=1))
